@@ -3,7 +3,7 @@
 //! panic_unpause_permissionless / propagate_fee_state, with the gate observed through a real
 //! user instruction (a deposit that always succeeds when the group is not paused).
 use crate::common::*;
-use crate::props::c15::{check_history, Obs, Op, PauseSystem};
+use crate::props::c15::{Obs, Op, PauseSystem};
 use crate::world::*;
 use marginfi_type_crate::types::FeeState;
 use proptest::prelude::*;
@@ -26,6 +26,10 @@ impl SvmSys {
         if d > 0 {
             w.vm.advance(d);
         }
+        {
+            let u = w.users[0].clone();
+            let _ = w.vm.exec(&w.ix_deposit(u.accts[0], u.auth, 0, u.tokens[0], 1_000_000, None));
+        }
         let admin = w.roles.fee_admin;
         Some(SvmSys { w, admin, edits: 0 })
     }
@@ -41,6 +45,32 @@ impl SvmSys {
         let u = &self.w.users[0];
         let ix = self.w.ix_deposit(u.accts[0], u.auth, 0, u.tokens[0], 1, None);
         vm.exec(&ix).is_err()
+    }
+    /// The other user instructions that the pause gates (each on its own clone of the store): they must be blocked
+    /// exactly when the deposit is. Returns the names of those whose answer differs from `deposit_blocked`.
+    pub fn gate_disagreements(&self) -> Vec<&'static str> {
+        let u = self.w.users[0].clone();
+        let blocked = self.deposit_blocked(false);
+        let new = kp("c15b_transfer_target", 0);
+        let mut t_kp = self.w.ix_transfer_account(u.accts[0], new, u.auth, u.auth);
+        for m in t_kp.accounts.iter_mut() {
+            if m.pubkey == new {
+                m.is_signer = true;
+            }
+        }
+        let cands: Vec<(&'static str, solana_program::instruction::Instruction)> = vec![
+            ("lending_account_withdraw", self.w.ix_withdraw(u.accts[0], u.auth, 0, u.tokens[0], 1, None)),
+            ("transfer_to_new_account", t_kp),
+            ("transfer_to_new_account_pda", self.w.ix_transfer_account_pda(u.accts[0], u.auth, u.auth, 3)),
+        ];
+        let mut out = vec![];
+        for (name, ix) in cands {
+            let mut vm = self.w.vm.clone();
+            if vm.exec(&ix).is_err() != blocked {
+                out.push(name);
+            }
+        }
+        out
     }
 }
 
@@ -134,7 +164,31 @@ pub const RULE: &str = "instruction level: random histories (boundary-biased wai
 
 fn run_seq(t0: i64, ops: &[Op]) -> Option<crate::props::c15::HistoryResult> {
     let mut sys = SvmSys::new(t0)?;
-    Some(check_history(&mut sys, ops, false))
+    // besides the history clauses (judged through the deposit gate): after every step the other gated user instructions
+    // must give the same answer as the deposit — "a pause that has run out stops blocking users immediately" holds for
+    // every instruction, not only for the one the spec watches
+    let mut disagreement: Option<(usize, &'static str)> = None;
+    let mut r = crate::props::c15::check_history_with(&mut sys, false, |s, _, i| {
+        if disagreement.is_none() && i > 0 {
+            if let Some(name) = s.gate_disagreements().into_iter().next() {
+                disagreement = Some((i - 1, name));
+                return None;
+            }
+        }
+        ops.get(i).copied()
+    });
+    if r.failure.is_none() {
+        if disagreement.is_none() {
+            if let Some(name) = sys.gate_disagreements().into_iter().next() {
+                disagreement = Some((ops.len().saturating_sub(1), name));
+            }
+        }
+        if let Some((i, name)) = disagreement {
+            let blocked = sys.deposit_blocked(false);
+            r.failure = Some((i, crate::props::c15::Fail { sig: "gate-differs-between-instructions", msg: format!("after this step a deposit is {} but {name} is {} (same group, same time {})", if blocked { "refused" } else { "accepted" }, if blocked { "accepted" } else { "refused" }, sys.w.vm.now()) }));
+        }
+    }
+    Some(r)
 }
 
 pub fn run(ctx: &Ctx) -> Report {
